@@ -360,7 +360,8 @@ MUTANTS += [
     m("c14-forward-short", "C14", "R14.2", [(WC, "        m_writer->write(reinterpret_cast<const char*>(buff), sizeof(buff) - m_lzma.avail_out);", "        m_writer->write(reinterpret_cast<const char*>(buff), sizeof(buff) - m_lzma.avail_out - 1);")], "last produced byte of every chunk dropped"),
     m("c14-accept-buf-error", "C14", "R14.3", [(WC, "    if (ret == Z_OK || ret == Z_STREAM_END)", "    if (ret == Z_OK || ret == Z_STREAM_END || ret == Z_BUF_ERROR)")], "Z_BUF_ERROR accepted"),
     m("c14-zlib-framing", "C14", "R14.4", [(WC, "Z_DEFLATED, 31, 8,", "Z_DEFLATED, 15, 8,")], "zlib instead of gzip framing"),
-    m("c14-no-end", "C14", "R14.2", [(WC, "            while (write_lzma(2048, LZMA_FINISH) != LZMA_STREAM_END);\n            lzma_end(&m_lzma);", "            while (write_lzma(2048, LZMA_FINISH) != LZMA_STREAM_END);")], "encoder not released: close() on rotation runs FINISH on a finished stream"),
+    # (c14-no-end - lzma_end() dropped from close() - was retired: open() re-initialises the stream, so the edit leaks memory but
+    #  every output is unchanged; R14.2 no longer asks for the release, see DESIGN 11.14 / neutral/C14e/refactor1.diff)
     m("c14-suffix", "C14", "R14.4", [(WH, "m_writer = std::make_unique<Writer<T>>(value, \".xz\");", "m_writer = std::make_unique<Writer<T>>(value, \".gz\");")], "xz output named .gz"),
     # ---------------------------------------------------------------- C15
     m("c15-rename-first", "C15", "R15.2", [(WH, "                    m_out.flush();\n                    m_out.close();\n                    if (std::rename(", "                    m_out.flush();\n                    if (std::rename("), (WH, "                        std::cerr << \"Couldn't rename the output file!\" << std::endl;\n", "                        std::cerr << \"Couldn't rename the output file!\" << std::endl;\n                    m_out.close();\n")],
